@@ -377,7 +377,44 @@ fn programs(ctx: &mut Ctx, src: Src) {
     EXEC_COUNTS.with(|m| m.borrow_mut().clear());
 }
 
+/// small workload for Miri: undefined behaviour in the dependency code that instructions actually
+/// reach (rand, rand_distr, names, ...): every instruction once on a small rich state + a few programs
+fn run_miri(ctx: &mut Ctx) {
+    let (mut is, names) = new_iset();
+    let cache = sorted_cache(&is);
+    for (k, name) in names.iter().enumerate() {
+        let mut r = Rng::derive(ctx.seed, &[1, 5, k as u64]);
+        let s = gen::snap(&mut r, &StateOpts { vals: Vals::Small, max_depth: 3, graphs: true, io: true, bindings: true, flags: false, random_cfg: false }, &names);
+        let mut st = build_state(&s);
+        st.exec_stack.push(pushr::push::item::Item::instruction(name.clone()));
+        let res = guarded(|| PushInterpreter::step(&mut st, &mut is, &cache));
+        ctx.rec.count("steps", 1);
+        ctx.rec.set_add("instructions", name);
+        ctx.rec.cover(&format!("miri|{}", name));
+        if let Err(p) = res {
+            ctx.rec.violation("C01", &format!("{}|panic|{}", name, panic_sig(&p)), &p, "");
+        }
+    }
+    for k in 0..6u64 {
+        let mut r = Rng::derive(ctx.seed, &[1, 6, k]);
+        let prog = typed_program(&mut r, &names, Vals::Small);
+        let mut st = PushState::new();
+        st.configuration.eval_push_limit = 60;
+        st.exec_stack.push(prog.to_item());
+        if let Err(p) = guarded(|| PushInterpreter::run(&mut st, &mut is)) {
+            ctx.rec.violation("C01", &format!("program|panic|{}", panic_sig(&p)), &p, "");
+        }
+        ctx.rec.count("programs", 1);
+    }
+    ctx.rec.sample("miri", "every registered instruction once on a small rich state + 6 typed programs under the interpreter");
+}
+
 pub fn run(ctx: &mut Ctx) {
+    if ctx.mode == "miri" {
+        run_miri(ctx);
+        ctx.rec.checkpoint();
+        return;
+    }
     match ctx.mode.as_str() {
         "sweep" => sweep(ctx),
         "grammar" => programs(ctx, Src::Grammar),
